@@ -68,6 +68,9 @@ var props = map[string]propInfo{
 	"C18": {"exploration", map[string]float64{"thorough": 900}},
 }
 
+// memLimitKB bounds the address space of the workers of crash-prone properties.
+var memLimitKB = map[string]int{"C11": 6 << 20, "C18": 6 << 20}
+
 func main() {
 	if len(os.Args) < 2 {
 		die(2, "usage: htsverif check <id> [--tier quick|thorough] | replay <file> | build | selftest determinism")
@@ -238,6 +241,11 @@ func runWorker(b *built, job map[string]interface{}, jobPath string, timeout tim
 	out := job["out"].(string)
 	os.Remove(out)
 	cmd := exec.Command(b.bin, "-test.run", "^TestWorker$", "-test.cpu", "1", "-test.timeout", "0")
+	if lim := memLimitKB[fmt.Sprint(job["property"])]; lim > 0 {
+		// decoders may try to allocate what a corrupt length field says: bound
+		// the address space so that the runtime aborts that one process
+		cmd = exec.Command("sh", "-c", fmt.Sprintf("ulimit -v %d; exec \"$0\" \"$@\"", lim), b.bin, "-test.run", "^TestWorker$", "-test.cpu", "1", "-test.timeout", "0")
+	}
 	cmd.Env = append(goEnv(), "HTSV_JOB="+jobPath, "GOMAXPROCS="+envOr("HTSV_GOMAXPROCS", "2"))
 	var buf bytes.Buffer
 	cmd.Stdout, cmd.Stderr = &buf, &buf
@@ -269,6 +277,41 @@ func runWorker(b *built, job map[string]interface{}, jobPath string, timeout tim
 		return &wr, buf.String(), fmt.Errorf("worker failed: %v", werr)
 	}
 	return &wr, buf.String(), nil
+}
+
+// crashSignature extracts the Go runtime's fatal error from a worker's
+// output ("" if the worker did not die of one).
+func crashSignature(log string) string {
+	for _, l := range strings.Split(log, "\n") {
+		l = strings.TrimSpace(l)
+		if strings.HasPrefix(l, "fatal error:") {
+			return strings.TrimPrefix(l, "fatal error: ")
+		}
+		if strings.HasPrefix(l, "runtime: goroutine stack exceeds") {
+			return "stack overflow"
+		}
+	}
+	return ""
+}
+
+func crashFrames(log string) string {
+	// the innermost library frames of the crashing goroutine, for the report
+	var out []string
+	for _, l := range strings.Split(log, "\n") {
+		if strings.HasPrefix(l, "github.com/biogo/hts/") && !strings.Contains(l, "/simhook") {
+			f := l
+			if i := strings.Index(f, "("); i > 0 {
+				f = f[:i]
+			}
+			if len(out) == 0 || out[len(out)-1] != f {
+				out = append(out, f)
+			}
+			if len(out) >= 4 {
+				break
+			}
+		}
+	}
+	return strings.Join(out, " <- ")
 }
 
 type aggStats struct {
@@ -350,6 +393,7 @@ func check(id, tier string, nworkers, runsOverride int, budgetOverride float64, 
 	var samples []json.RawMessage
 	var infraErr error
 	var infraLog string
+	crashViolation := false
 	var wg sync.WaitGroup
 	stop := make(chan struct{})
 	var stopOnce sync.Once
@@ -389,6 +433,57 @@ func check(id, tier string, nworkers, runsOverride int, budgetOverride float64, 
 					}
 				}
 				if err != nil {
+					sig := crashSignature(log)
+					inb, ierr := os.ReadFile(job["out"].(string) + ".inflight")
+					if sig != "" && ierr == nil {
+						// the process died of a fatal runtime error while
+						// executing a known run: that is an observation about
+						// the library, not an infrastructure failure
+						crun, _ := strconv.Atoi(strings.TrimSpace(string(inb)))
+						class := "crash:" + sig + ":" + crashFrames(log)
+						agg.ints["runs"]++
+						if strings.Contains(sig, "out of memory") || strings.Contains(sig, "cannot allocate") {
+							if agg.maps["inconclusive"] == nil {
+								agg.maps["inconclusive"] = map[string]int64{}
+							}
+							agg.maps["inconclusive"]["resource_limit"]++
+							mu.Unlock()
+							from = crun + nworkers
+							continue
+						}
+						matched := false
+						for _, k := range myKnown {
+							if k.Status == "open" && (k.Kind == "" || k.Kind == "crash") {
+								ok := true
+								for _, c := range k.Contains {
+									if !strings.Contains(class, c) {
+										ok = false
+									}
+								}
+								if ok {
+									matched = true
+									if agg.maps["known_findings_hit"] == nil {
+										agg.maps["known_findings_hit"] = map[string]int64{}
+									}
+									agg.maps["known_findings_hit"][k.ID]++
+								}
+							}
+						}
+						if matched {
+							mu.Unlock()
+							from = crun + nworkers
+							continue
+						}
+						if violation == nil {
+							rp := map[string]interface{}{"property": id, "tier": tier, "seed": seed, "run": crun, "regen": true,
+								"kind": "crash", "class": class, "msg": "the process died of a fatal runtime error while executing this run: " + sig + " in " + crashFrames(log)}
+							violation, _ = json.Marshal(rp)
+							crashViolation = true
+						}
+						mu.Unlock()
+						stopOnce.Do(func() { close(stop) })
+						return
+					}
 					if infraErr == nil {
 						infraErr = err
 						infraLog = log
@@ -451,7 +546,13 @@ func check(id, tier string, nworkers, runsOverride int, budgetOverride float64, 
 		// the replay must reproduce in a fresh process
 		job := map[string]interface{}{"property": id, "tier": tier, "seed": seed, "replay": path, "out": filepath.Join(work, "replay.json")}
 		wr, log, err := runWorker(b, job, filepath.Join(work, "replayjob.json"), watchdog)
-		if err != nil || wr == nil || !wr.ReplayOK {
+		if crashViolation {
+			// the replay must crash the same way
+			if err == nil || crashSignature(log) == "" || !strings.Contains(rp.Class, crashSignature(log)) {
+				fmt.Fprintln(os.Stderr, log)
+				die(2, "%s: a run crashed the worker but replaying %s does not crash the same way; this is a defect of the machinery, not a finding", id, path)
+			}
+		} else if err != nil || wr == nil || !wr.ReplayOK {
 			msg := ""
 			if wr != nil {
 				msg = wr.ReplayMsg
@@ -623,6 +724,11 @@ func replay(path string) int {
 	job := map[string]interface{}{"property": rp.Property, "tier": rp.Tier, "seed": rp.Seed, "replay": abs, "out": filepath.Join(work, "replay.json")}
 	wr, log, err := runWorker(b, job, filepath.Join(work, "job.json"), 30*time.Minute)
 	if err != nil {
+		if sig := crashSignature(log); sig != "" {
+			fmt.Printf("replay of %s: the process died of a fatal runtime error: %s in %s\n", path, sig, crashFrames(log))
+			fmt.Printf("VIOLATION property=%s replay=%s\n", rp.Property, path)
+			return 1
+		}
 		fmt.Fprintln(os.Stderr, log)
 		die(2, "%v", err)
 	}
